@@ -122,9 +122,9 @@ class Ctx:
         with s._lock: s._ir[key] = out
         return out
 
-    def module(s, tus, aux=()):
+    def module(s, tus, aux=(), tag=''):
         """parsed, linked module of the given TUs (names without .cpp) plus auxiliary verif-side .cpp files"""
-        key = (tuple(tus), tuple(aux))
+        key = (tuple(tus), tuple(aux), tag)
         if key in s._mod: return s._mod[key]
         with ThreadPoolExecutor(NCPU) as ex:
             paths = list(ex.map(s.ir, tus)) + list(ex.map(lambda a: s.ir(None, a), aux))
@@ -145,10 +145,11 @@ class Ctx:
         if must: raise Broken('function %r not found uniquely in IR (renamed/removed?): %s' % (pat, c[:8]))
         return None
 
-    def translate(s, m, entries, stubs=(), overrides=None, out='eng', prefix='', keep=(), opt_stubs=(), globals_=(), env_tables=None):
+    def translate(s, m, entries, stubs=(), overrides=None, out='eng', prefix='', keep=(), opt_stubs=(), globals_=(), env_tables=None, def_rename=None):
         ent = [s.find(m, e) for e in entries]
         st = [s.find(m, e) for e in stubs] + [x for x in (s.find(m, e, False) for e in opt_stubs) if x]
         em = ll2c.Emitter(m, st, overrides or {}, False, prefix=prefix, keep=[s.find(m, k, False) or k for k in keep])
+        for k, v in (def_rename or {}).items(): em.def_rename[s.find(m, k)] = v
         for k, v in (env_tables or {}).items():
             c2 = [g for g in m.globals if k in g]
             if len(c2) != 1: raise Broken('environment table %r not found uniquely in IR' % k)
